@@ -143,6 +143,8 @@ class StmtMixin:
         parts = self.index_parts(t.slice)
         key = parts[0][1] if len(parts) == 1 else None
         text = f'{src(node)} assigns into'
+        if v.clock and base.may('dict') and key is not None and key.has_const() and key.const == 't':
+            v = v.but(clock=False)            # the one allowed sink of the wall clock: info['t']
         if base.may('arr') or base.is_any:
             self.write_buf(base, node, text)
             if base.objarr:
